@@ -204,6 +204,21 @@ CHECKS = {
     design_ref="DESIGN.md section 5, C10",
     note="Trusted: names are plain text; showkey=/before=/after= not passed; values opaque in the model; the re-parse clause is testing. No axioms.",
     technique="Coq proof (invariant by induction over operation sequences on the parameter list) + model/implementation correspondence + re-parse oracle"),
+ "C07": dict(
+    category="proof",
+    text="PARTIAL. Proved (Coq): over a bounds-checked memory, EVERY sequence of Textbuffer operations (write with growth, concat, reverse, "
+         "reset, render, the `length -= n` truncation after the backwards scheme scan) stays inside the allocated object and computes the "
+         "plain-list result; the entity text buffer stays inside calloc(MAX_ENTITY_SIZE+1) with its terminator; the brace text buffer holds "
+         "the longest run. Comparison operators, constants and growth expressions are regenerated from textbuffer.c / tok_parse.c on every "
+         "run (template matcher, fail-closed) and the extracted model is run against the real textbuffer.c through a ctypes shim. NOT proved: "
+         "reference counting, frees, the AVL tree, undefined behaviour elsewhere. Those are decided by an AddressSanitizer+UBSan build "
+         "(PYTHONMALLOC=malloc) over table inputs, adversarial families, grammar documents in all three string widths and calls aborted at "
+         "every k-th token construction followed by reuse, and by libc mallinfo2 / reference counts over windows of repeated completed and "
+         "aborted calls.",
+    design_ref="DESIGN.md section 5, C07",
+    note="Trusted: gcc's sanitizers; mallinfo2; the template matcher and shim. Whole-extension memory safety is execution on explored inputs, "
+         "not proof. No axioms.",
+    technique="Coq proof (buffer model over bounds-checked memory, parameters regenerated from C) + model/implementation correspondence via shim + ASan/UBSan and allocation-count execution (testing)"),
  "C08": dict(
     category="proof",
     text="Theorems (Coq, any node type, at the level of the node list that holds the target): for a node target found at position |P| "
